@@ -4,9 +4,12 @@ package main
 import (
 	"encoding/json"
 	"fmt"
+	"net/url"
+	"os"
 	"strings"
 	"sync"
 	"time"
+	"unicode/utf8"
 
 	"verifharness/common"
 )
@@ -816,9 +819,18 @@ Require Import Verif.Foreign.NameEscape Verif.Foreign.ImportSpec Verif.Foreign.E
 Local Open Scope string_scope. Local Open Scope N_scope.`, "ep_case",
 		`Definition M := Eval vm_compute in mismatches ep_ok cases. Print M.`, 40)
 	defer ec.Close()
+	nc := c.NewCases("C11nested", `From Coq Require Import String List NArith Bool. Import ListNotations.
+Require Import Verif.Foreign.NameEscape Verif.Foreign.ImportSpec Verif.Foreign.NestedSpec Verif.Foreign.ImportRun Verif.Foreign.NestedRun Verif.Base.Harness.
+Local Open Scope string_scope. Local Open Scope N_scope.`, "nested_case",
+		`Definition M := Eval vm_compute in mismatches nested_ok cases. Print M.`, 40)
+	defer nc.Close()
 	finish := func(d doc, o docObs) {
 		if d.Format == "swagger" && o.EpProj != nil && len(d.Eps) > 0 && mediaCollision(d) {
 			c.Hist("doc-model:endpoints-not-compared(same-named body parameters: output depends on Go's map order)")
+		} else if d.Stream == "oas2-hostile-params" {
+			// Foreign/EndpointSpec.v is about parameters with plain names (a header called `a,b` is written raw and
+			// read as two parameters); the written names are Foreign/ParamNameSpec.v's
+			c.Hist("doc-model:endpoints-not-compared(hostile parameter name)")
 		} else if d.Format == "swagger" && o.EpProj != nil && len(d.Eps) > 0 {
 			if g, ok := gEpProj(o.EpProj); ok {
 				ec.Add(fmt.Sprintf("(%s, %s)", gEndpoints(d), g), d)
@@ -831,9 +843,24 @@ Local Open Scope string_scope. Local Open Scope N_scope.`, "ep_case",
 				c.Hist("doc-model:xsd-compared-in-coq")
 			}
 		}
+		nestedStream := strings.HasPrefix(d.Stream, "oas2-nested")
+		if nestedComparable(d) && (nestedStream || !flatOAS(d)) {
+			for _, f := range nestedFeatures(d) {
+				c.Hist("doc-nested:" + f)
+			}
+			if o.Proj != nil {
+				if g, ok := gProj(o.Proj); ok {
+					nc.Add(fmt.Sprintf("(%s, Some %s)", gNestedDoc(d), g), d)
+					c.Hist("doc-model:nested-compared-in-coq")
+				}
+			} else if nestedStream && strings.Contains(o.ImpErr, "duplicate fields exist") {
+				nc.Add(fmt.Sprintf("(%s, None)", gNestedDoc(d)), d)
+				c.Hist("doc-model:nested-compared-in-coq(import error)")
+			}
+		}
 		if d.Format == "swagger" && o.Proj != nil {
 			if !flatOAS(d) {
-				c.Hist("doc-model:outside-subset(inline-object)")
+				c.Hist("doc-model:outside-flat-subset")
 			} else if g, ok := gProj(o.Proj); ok {
 				if rets, ok := gRets(o.EpProj); ok {
 					oc.Add(fmt.Sprintf("((%s, %s), (%s, %s))", gOasDoc(d), gOps(d), g, rets), d)
@@ -887,6 +914,10 @@ Local Open Scope string_scope. Local Open Scope N_scope.`, "ep_case",
 		c.Res.Notes = append(c.Res.Notes, fmt.Sprintf("%s: %.1fs", what, time.Since(t0).Seconds()))
 		t0 = time.Now()
 	}
+	if os.Getenv("C11_ONLY") == "nested" {
+		// development aid: only the nested-schema stream
+		plans = nil
+	}
 	for _, p := range plans {
 		n := p.quick
 		if c.Thorough() {
@@ -899,6 +930,102 @@ Local Open Scope string_scope. Local Open Scope N_scope.`, "ep_case",
 			run(genDoc(c.Rng, p.cfg))
 		}
 		lap(p.cfg.stream)
+	}
+	// nested schemas: inline objects to depth 3, arrays of arrays, allOf / oneOf, $ref definitions
+	{
+		n := 40
+		if c.Thorough() {
+			n = 400
+		}
+		if c.Search {
+			n *= 2
+		}
+		for i := 0; i < n; i++ {
+			run(genNested(c.Rng, "oas2-nested"))
+		}
+		run(diamondDoc())
+		run(shadowedDoc())
+		run(redeclaredDoc())
+		lap("oas2-nested")
+	}
+	// hostile parameter names and path segments: one per document, every (role, name) pair in turn
+	{
+		n := 4 * 26
+		if !c.Thorough() && !c.Search {
+			n = 36
+		}
+		off := 0
+		if !c.Thorough() {
+			off = int(c.Seed) * 36
+		}
+		for i := 0; i < n; i++ {
+			run(genHostileParams(c.Rng, "oas2-hostile-params", off+i))
+		}
+		lap("oas2-hostile-params")
+	}
+	// the written names of query and header parameters against Foreign/ParamNameSpec.v (text only: no compile)
+	{
+		pc := c.NewCases("C11pname", `From Coq Require Import String List NArith Bool. Import ListNotations.
+Require Import Verif.Foreign.NameEscape Verif.Foreign.ImportSpec Verif.Foreign.ImportRun Verif.Foreign.ParamNameSpec Verif.Base.Harness.
+Local Open Scope string_scope. Local Open Scope N_scope.`, "pname_case",
+			`Definition M := Eval vm_compute in mismatches pname_ok cases. Print M.`, 40)
+		n := 12
+		if c.Thorough() {
+			n = 120
+		}
+		for i := 0; i < n; i++ {
+			d, names := genParamNameDoc(c.Rng, int(c.Seed)*7+i)
+			var o docObs
+			died, timedOut, _ := worker.Call(d, &o, 120*time.Second)
+			c.Count(fmt.Sprintf("pname|%d", c.Res.Evaluations), true)
+			c.Hist("doc:" + d.Stream)
+			if died || timedOut || o.ImpErr != "" {
+				c.Fail("import-fails:swagger:param-names", fmt.Sprintf("[swagger, %s] import of a document whose parameters are called %q fails: %s", d.Stream, names, firstLine(o.ImpErr)), d)
+				continue
+			}
+			ql, ok1 := methodLine(o.ImpText, "/q")
+			hl, ok2 := methodLine(o.ImpText, "/h")
+			if !ok1 || !ok2 {
+				c.Fail("missing-endpoint:swagger:param-names", fmt.Sprintf("[swagger, %s] the imported text has no /q or /h endpoint", d.Stream), d)
+				continue
+			}
+			// convertToSyslSafe upper-cases the BYTE after a '-' through strings.ToUpper(string(name[i])): a byte
+			// >= 0x80 is taken for a Latin-1 character and written as two bytes, which tears a UTF-8 sequence apart.
+			// The Coq model is an ASCII model: such documents are judged here and not compared.
+			torn := false
+			for _, nm := range names {
+				for i := 0; i+1 < len(nm); i++ {
+					if nm[i] == '-' && nm[i+1] >= 0x80 {
+						torn = true
+					}
+				}
+			}
+			if torn {
+				c.Hist("param-names:dash-before-non-ascii(not compared)")
+				if i := strings.Index(ql, " ?"); i >= 0 {
+					for _, part := range strings.Split(strings.TrimSuffix(ql[i+2:], ":"), "&") {
+						w := strings.SplitN(part, "=", 2)[0]
+						if u, err := url.QueryUnescape(w); err == nil && !utf8.ValidString(u) {
+							c.Fail("name-corrupted:swagger:query:dash-before-non-ascii", fmt.Sprintf("[swagger, %s] the query parameter written %q is no longer UTF-8 (parameters: %q): convertToSyslSafe upper-cases the byte behind a '-' as if it were a character", d.Stream, w, names), d)
+							break
+						}
+					}
+				}
+				continue
+			}
+			var gn []string
+			for _, nm := range names {
+				gn = append(gn, gb(nm))
+			}
+			pc.Add(fmt.Sprintf("(%s, (%s, %s))", common.GList(gn), gb(ql), gb(hl)), d)
+			c.HistN("param-names-compared-in-coq", 2*len(names))
+		}
+		pc.Close()
+		lap("oas2-param-names")
+	}
+	if os.Getenv("C11_ONLY") == "nested" {
+		wg.Wait()
+		return
 	}
 	// path-level parameters shared by several methods
 	nsh := 25
